@@ -372,7 +372,7 @@ class DictGen:
 
     MUTATIONS = [
         "repeat", "repeat", "change", "change", "change", "delete", "add", "never", "permute",
-        "sibling", "template", "fresh", "section_replace", "listref", "labrea_switch",
+        "sibling", "template", "fresh", "section_replace", "listref", "labrea_switch", "nsp", "nsp",
     ]
 
     def mutate(self, prev, hint_read=None, hint_unread=None):
@@ -448,6 +448,20 @@ class DictGen:
             k = r.choice([x for x in SCALAR_KEYS if not (self.cfg.get("tmpl_preset") and x in PRESET_TEMPLATE_TARGETS)] or ["A"])
             o[k] = "{L}"
             o["L"] = [r.choice(["x{C}", "{B}", "{M}", "p{S.X}q"]), r.choice([0, "a"])]
+        elif m == "nsp" and self.cfg.get("namespace_keys"):
+            # the section of the program's option namespace: declared members, a sub-section, and an entry nobody declared
+            sec = dict(o.get("NSP") or {}) if isinstance(o.get("NSP"), dict) else {}
+            which = r.choice(["P", "REQ", "AU", "DD", "EXTRA", "SUB", "drop"])
+            if which == "drop":
+                o.pop("NSP", None)
+            else:
+                if which == "SUB":
+                    sec["SUB"] = {"X": r.choice([0, 1, "x"])}
+                elif r.random() < 0.25 and which in sec:
+                    del sec[which]
+                else:
+                    sec[which] = r.choice([1, 2, "a", "b"])
+                o["NSP"] = sec
         elif m == "labrea_switch" and self.cfg.get("labrea_keys"):
             # the reserved section itself is part of the dictionary (here: switches that do not touch caching)
             lab = dict(o.get("LABREA") or {}) if isinstance(o.get("LABREA"), dict) else {}
